@@ -215,12 +215,17 @@ func compareWithReference(r *fw.R, id string, ctxKey string, o *readOutcome, ref
 			break
 		}
 	}
-	if term.Kind == "fail" && term.Class == wire.VioClosePay {
-		// a Close frame whose payload is malformed (one byte, or a status code that may not appear on the wire) is
-		// a protocol violation to be rejected: it is not the peer's close, and is not reported as one
+	if term.Kind == "fail" {
+		// a protocol violation - a Close frame with a malformed payload (one byte, a status code that may not
+		// appear on the wire), a frame with a reserved opcode, any other - is rejected: it is not the peer's
+		// close, and the read does not report it as one
 		var ce websocket.CloseError
 		if errors.As(o.Err, &ce) {
-			r.Violate(id+"/malformed-close-accepted-as-close", fmt.Sprintf("%s: frame %d is a Close frame with a malformed payload, yet the read reported the peer's close: %v", ctxKey, term.Frame, o.Err), witness())
+			sig := id + "/violation-reported-as-close/" + term.Class
+			if term.Class == wire.VioClosePay {
+				sig = id + "/malformed-close-accepted-as-close"
+			}
+			r.Violate(sig, fmt.Sprintf("%s: frame %d is a protocol violation (%s), yet the read reported the peer's close: %v", ctxKey, term.Frame, term.Class, o.Err), witness())
 		}
 	}
 	if term.Kind == "close" && !term.InMessage {
